@@ -59,7 +59,7 @@ def run_jobs(pid, tier, jobs, level="translation_validation", timeout_ms=None, w
                 except EngineError as e:
                     repro, info, d = False, "replay failed: %s" % e, ""
                 if repro:
-                    res.violation("%s|%s" % (r["case"], x["cfg"]),
+                    res.violation(("%s|%s" % (r["case"], x["cfg"])).replace(" ", "_"),
                                   "real souffle output differs from the least model on a solver-found database: %s [%s, cfg %s]" % (info[:300], r["case"], x["cfg"]), d)
                 else:
                     res.inconc("%s cfg %s: solver model did not reproduce on the real binary (%s) -- RAM semantics or reference wrong" % (r["case"], x["cfg"], info[:200]))
